@@ -55,7 +55,7 @@ func (c ctx) try(site, what string, rep any, f func()) bool {
 func main() {
 	run := vr.New("C05", "exploration")
 	c := ctx{run}
-	run.Rule("core: keys x IVs x every block count 1..N x 4 plaintext patterns (full product) compared with IGE computed from its definition on crypto/aes; refusal: every length 0..64 not a positive multiple of 16; wrappers: every payload length 0..N x leading-zero class of each nonce x producer (client itself / reference peer with the legal padding, two fillers). Every case is distinct; non-trivial = the call under test returned normally and the oracle compared bytes")
+	run.Rule("core: keys x IVs x every block count 1..N x 4 plaintext patterns (full product) compared with IGE computed from its definition on crypto/aes; refusal: every length 0..64 not a positive multiple of 16; wrappers: every payload length 0..N x leading-zero class of each nonce x producer (client itself / reference peer with the legal padding, two fillers). temp-key history: every ordered pair of nonce pairs from a 3x3 alphabet x seal/open per step. Every case is distinct; non-trivial = the call under test returned normally and the oracle compared bytes")
 	run.Assume("reference R2 (harness/ref/mtp1) is trusted; it is cross-checked against the repository's shipped test vectors by C03/C05 agreeing on the unchanged tree",
 		"padding bytes of the client's wrapper come from the owned vrand stream (deterministic)")
 	N, M, W := 8, 80, 64
@@ -259,6 +259,51 @@ func main() {
 					if ok && !bytes.Equal(back, payload) {
 						run.Violation("temp|decrypt-peer|wrong|"+cls, id+": client does not recover the payload a conformant peer sealed", rep)
 					}
+				}
+			}
+		}
+	}
+	// (e) history: every ordered pair of (new_nonce, server_nonce) pairs from a 3x3 alphabet in which nonces
+	// are shared between pairs, every combination of seal/open for the two steps: the second result must be
+	// what the reference gives for the second pair alone (nothing remembered from the first may leak in)
+	{
+		mkNew := func(k int) []byte { return pat(32, func(i int) byte { return byte(0x21 + i + 50*k) }) }
+		mkSrv := func(k int) []byte { return pat(16, func(i int) byte { return byte(0xd3 - i - 40*k) }) }
+		payload := pat(28, func(i int) byte { return byte(i + 1) }) // 20+28 = 48: no padding needed
+		type np struct{ a, b int }
+		var pairs []np
+		for a := 0; a < 3; a++ {
+			for b := 0; b < 3; b++ {
+				pairs = append(pairs, np{a, b})
+			}
+		}
+		step := func(p np, seal bool, id string, rep map[string]any, cls string) {
+			newNonce, srvNonce := mkNew(p.a), mkSrv(p.b)
+			nn, sn := new(big.Int).SetBytes(newNonce), new(big.Int).SetBytes(srvNonce)
+			if seal {
+				var ct []byte
+				if c.try("temp-history|encrypt|"+cls, id, rep, func() { ct = ige.EncryptMessageWithTempKeys(append([]byte{}, payload...), nn, sn) }) {
+					if got, found := mtp1.TempOpenAny(ct, newNonce, srvNonce); !found || !bytes.Equal(got, payload) {
+						run.Violation("temp-history|encrypt|peer-cannot-open|"+cls, id+": a conformant peer cannot recover the payload sealed in the second step", rep)
+					}
+				}
+			} else {
+				ct := mtp1.TempSeal(payload, nil, newNonce, srvNonce)
+				var back []byte
+				if c.try("temp-history|decrypt|"+cls, id, rep, func() { back = ige.DecryptMessageWithTempKeys(ct, nn, sn) }) && !bytes.Equal(back, payload) {
+					run.Violation("temp-history|decrypt|wrong|"+cls, id+": client does not recover the payload a conformant peer sealed in the second step", rep)
+				}
+			}
+		}
+		for _, p1 := range pairs {
+			for _, p2 := range pairs {
+				for ops := 0; ops < 4; ops++ {
+					cls := fmt.Sprintf("same-new=%v|same-srv=%v", p1.a == p2.a, p1.b == p2.b)
+					id := fmt.Sprintf("temp history (%d,%d)->(%d,%d) ops=%d", p1.a, p1.b, p2.a, p2.b, ops)
+					rep := map[string]any{"part": "temp-history", "p1": []int{p1.a, p1.b}, "p2": []int{p2.a, p2.b}, "ops": ops}
+					step(p1, ops&1 != 0, id+" step1", rep, cls)
+					step(p2, ops&2 != 0, id+" step2", rep, cls)
+					run.Eval(id, true)
 				}
 			}
 		}
